@@ -44,6 +44,14 @@ check('C01', level='exploration', steps=[dict(src='drv/c01.c', variant='plain', 
             "is run in 4 modes x tld_check off/on; non-trivial = L1 strings containing an '@' with bytes on both sides; counted by the driver"),
       deadline=dict(quick=240, thorough=3000))
 
+import c11gen
+check('C11', level='exploration', steps=[dict(src='drv/c11.c', variant='plain', name='table'),
+                                           dict(kind='py', name='generators', fn=c11gen.run)],
+      rule=("finite artefact enumerated completely: every CSV row (5 case variants), every table entry, every 1-3 character label, every one-edit "
+            "neighbour / proper prefix / proper suffix of every row, every line of tld-domains.txt and raw.csv, every line of the regenerated files; "
+            "non-trivial = row look-ups + file rows + generated lines compared (each distinct by construction)"),
+      deadline=dict(quick=300, thorough=600))
+
 # ---------------------------------------------------------------------------
 def load_findings():
     p = os.path.join(V, 'known_findings.json')
